@@ -2,6 +2,7 @@ package main
 
 import (
 	"fmt"
+	"os"
 	"go/token"
 	"go/types"
 
@@ -341,8 +342,10 @@ func (c *Ctx) boundsDebug(name string) {
 	}
 	a := getAn(fn)
 	fmt.Println("invariants:")
-	for _, f := range a.inv {
-		fmt.Println("   ", linString(f.l), ">= 0", f.neq)
+	for hb, fs := range a.invAt {
+		for _, f := range fs {
+			fmt.Println("    at block", hb.Index, ":", linString(f.l), ">= 0")
+		}
 	}
 	if sum := retSummaryOf(fn); sum != nil {
 		fmt.Println("return summary:")
@@ -356,7 +359,7 @@ func (c *Ctx) boundsDebug(name string) {
 			st = "UNPROVEN goals " + s.goal
 		}
 		fmt.Printf("%s %s %s  [%s]\n", c.ipos(s.ins), s.what, siteShape(s.ins), st)
-		if !s.ok {
+		if !s.ok || os.Getenv("BDEBUG_ALL") != "" {
 			for _, f := range append(append([]cons{}, a.blockFacts(s.ins.Block())...), a.inv...) {
 				if f.neq {
 					fmt.Println("      fact:", linString(f.l), "!= 0")
